@@ -14,8 +14,11 @@ import (
 	"sort"
 	"strings"
 	"sync"
+	"sync/atomic"
 	"time"
 
+	"github.com/pion/logging"
+	"github.com/pion/transport/v4/vnet"
 	"github.com/pion/webrtc/v4"
 )
 
@@ -26,7 +29,33 @@ type c18Alloc struct {
 	NoCoq  bool     `json:"nocoq"`
 }
 
+// an allocation that does not return within the limit is reported once; later
+// cases of the run fail at once instead of piling up spinning goroutines
+var c18Hung atomic.Bool
+
+func c18Generate(pc *webrtc.PeerConnection, role webrtc.DTLSRole) (uint16, error, bool) {
+	type res struct {
+		id  uint16
+		err error
+	}
+	ch := make(chan res, 1)
+	go func() {
+		id, err := pc.VerifGenerateDataChannelID(role)
+		ch <- res{id, err}
+	}()
+	select {
+	case r := <-ch:
+		return r.id, r.err, true
+	case <-time.After(10 * time.Second):
+		c18Hung.Store(true)
+		return 0, nil, false
+	}
+}
+
 func c18AllocRun(in c18Alloc) (V, Verdict) {
+	if c18Hung.Load() {
+		return VS("hung"), Fail("allocator-never-returns", "an earlier generateAndSetDataChannelID call of this run never returned")
+	}
 	api := newQuietAPI(nil)
 	pc, err := api.NewPeerConnection(webrtc.Configuration{})
 	if err != nil {
@@ -72,7 +101,10 @@ func c18AllocRun(in c18Alloc) (V, Verdict) {
 			seen[op[1]] = true
 			cids = append(cids, VZ(int64(op[1])))
 		case 2:
-			id, err := pc.VerifGenerateDataChannelID(role)
+			id, err, returned := c18Generate(pc, role)
+			if !returned {
+				return VS("hung"), Fail("allocator-never-returns", fmt.Sprintf("generateAndSetDataChannelID did not return (op %d)", k))
+			}
 			if err != nil {
 				errs++
 				cids = append(cids, VZ(-1))
@@ -166,6 +198,101 @@ func c18AllocCoq(in c18Alloc) string {
 	return fmt.Sprintf("(%d, %s)", in.MaxV, CoqList(ops))
 }
 
+// ---------- concurrent allocators ----------
+
+type c18Conc struct {
+	Client bool     `json:"client"`
+	Pre    [][2]int `json:"pre"` // explicit creates / remote opens made before the race
+	G      int      `json:"g"`   // goroutines
+	K      int      `json:"k"`   // allocations per goroutine
+}
+
+// Allocation is one critical section under r.lock: whatever the interleaving,
+// G*K concurrent allocations must hand out exactly the G*K smallest free ids
+// of the role's parity, each once.
+func c18ConcRun(in c18Conc) (V, Verdict) {
+	api := newQuietAPI(nil)
+	pc, err := api.NewPeerConnection(webrtc.Configuration{})
+	if err != nil {
+		panic(err)
+	}
+	defer pc.Close() //nolint
+	role, start := webrtc.DTLSRoleServer, 1
+	if in.Client {
+		role, start = webrtc.DTLSRoleClient, 0
+	}
+	seen := map[int]bool{}
+	for k, op := range in.Pre {
+		id := uint16(op[1])
+		if op[0] == 0 {
+			t := true
+			if _, err := pc.CreateDataChannel(fmt.Sprintf("e%d", k), &webrtc.DataChannelInit{ID: &id, Negotiated: &t}); err != nil {
+				panic(err)
+			}
+		} else if err := pc.VerifRemoteDataChannel(id); err != nil {
+			panic(err)
+		}
+		seen[op[1]] = true
+	}
+	res := make([][]int, in.G)
+	var wg sync.WaitGroup
+	begin := make(chan struct{})
+	for g := 0; g < in.G; g++ {
+		g := g
+		wg.Add(1)
+		go func() {
+			defer wg.Done()
+			<-begin
+			for k := 0; k < in.K; k++ {
+				id, err := pc.VerifGenerateDataChannelID(role)
+				if err != nil {
+					res[g] = append(res[g], -1)
+					continue
+				}
+				res[g] = append(res[g], int(id))
+			}
+		}()
+	}
+	close(begin)
+	wg.Wait()
+	verdict := Pass(fmt.Sprintf("g%d/client=%v", in.G, in.Client), in.G >= 2)
+	var all []int
+	for _, r := range res {
+		for _, id := range r {
+			switch {
+			case id < 0:
+				verdict = Fail("allocator-unexpected-error", "ErrMaxDataChannelID far from exhaustion")
+			case id%2 != start:
+				verdict = Fail("assigned-id-wrong-parity", fmt.Sprintf("id %d", id))
+			case seen[id]:
+				verdict = Fail("assigned-id-in-use", fmt.Sprintf("id %d handed out although in use (concurrent allocation)", id))
+			}
+			seen[id] = true
+			all = append(all, id)
+		}
+	}
+	sort.Ints(all)
+	return VL{VInts(all), VInts(pc.VerifDataChannelIDsUsed())}, verdict
+}
+
+func c18ConcCoq(in c18Conc) string {
+	cl := 0
+	if in.Client {
+		cl = 1
+	}
+	ops := []string{fmt.Sprintf("(6, %d)", cl)}
+	n := 0
+	for _, op := range in.Pre {
+		ops = append(ops, fmt.Sprintf("(%d, %d)", op[0], op[1]))
+		n++
+	}
+	for k := 0; k < in.G*in.K; k++ {
+		ops = append(ops, "(4, 0)", fmt.Sprintf("(5, %d)", n))
+		n++
+	}
+	return fmt.Sprintf("(65535, %s)", CoqList(ops))
+}
+
 // ---------- connected pairs ----------
 
 type c18Pair struct {
@@ -176,19 +303,38 @@ type c18Pair struct {
 	AfterB     int   `json:"after_b"`    // ... by the answerer
 }
 
-func c18LoopbackAPI(role int) *webrtc.API {
-	se := webrtc.SettingEngine{}
-	se.SetICEMulticastDNSMode(0 + 1)
-	se.SetNetworkTypes([]webrtc.NetworkType{webrtc.NetworkTypeUDP4})
-	se.SetIncludeLoopbackCandidate(true)
-	se.SetInterfaceFilter(func(n string) bool { return n == "lo" })
-	switch role {
-	case 1:
-		_ = se.SetAnsweringDTLSRole(webrtc.DTLSRoleClient)
-	case 2:
-		_ = se.SetAnsweringDTLSRole(webrtc.DTLSRoleServer)
+// c18VNetAPIs builds the two APIs of a pair on a private virtual network
+// (pion/transport vnet): no dependence on the host's interfaces.
+func c18VNetAPIs(answerRole int) (*webrtc.API, *webrtc.API, *vnet.Router) {
+	wan, err := vnet.NewRouter(&vnet.RouterConfig{CIDR: "1.2.3.0/24", LoggerFactory: logging.NewDefaultLoggerFactory()})
+	if err != nil {
+		panic(err)
 	}
-	return webrtc.NewAPI(webrtc.WithSettingEngine(se))
+	mk := func(ip string, role int) *webrtc.API {
+		nw, err := vnet.NewNet(&vnet.NetConfig{StaticIPs: []string{ip}})
+		if err != nil {
+			panic(err)
+		}
+		if err = wan.AddNet(nw); err != nil {
+			panic(err)
+		}
+		se := webrtc.SettingEngine{}
+		se.SetNet(nw)
+		se.SetICEMulticastDNSMode(0 + 1)
+		se.SetICETimeouts(5*time.Second, 10*time.Second, 200*time.Millisecond)
+		switch role {
+		case 1:
+			_ = se.SetAnsweringDTLSRole(webrtc.DTLSRoleClient)
+		case 2:
+			_ = se.SetAnsweringDTLSRole(webrtc.DTLSRoleServer)
+		}
+		return webrtc.NewAPI(webrtc.WithSettingEngine(se))
+	}
+	a, b := mk("1.2.3.4", 0), mk("1.2.3.5", answerRole)
+	if err = wan.Start(); err != nil {
+		panic(err)
+	}
+	return a, b, wan
 }
 
 type c18Side struct {
@@ -235,11 +381,13 @@ func c18PairRun(in c18Pair) (V, Verdict) {
 	a := &c18Side{firstID: map[*webrtc.DataChannel]int{}}
 	b := &c18Side{firstID: map[*webrtc.DataChannel]int{}}
 	var err error
-	if a.pc, err = c18LoopbackAPI(0).NewPeerConnection(webrtc.Configuration{}); err != nil {
+	apiA, apiB, wan := c18VNetAPIs(in.AnswerRole)
+	defer wan.Stop() //nolint
+	if a.pc, err = apiA.NewPeerConnection(webrtc.Configuration{}); err != nil {
 		panic(err)
 	}
 	defer a.pc.Close() //nolint
-	if b.pc, err = c18LoopbackAPI(in.AnswerRole).NewPeerConnection(webrtc.Configuration{}); err != nil {
+	if b.pc, err = apiB.NewPeerConnection(webrtc.Configuration{}); err != nil {
 		panic(err)
 	}
 	defer b.pc.Close() //nolint
@@ -558,6 +706,9 @@ func init() {
 		Run: c18AllocRun, Coq: c18AllocCoq,
 		Shrink: func(in c18Alloc) []c18Alloc {
 			var out []c18Alloc
+			if len(in.Ops) > 200 {
+				return nil
+			}
 			for i := range in.Ops {
 				c := in
 				c.Ops = append(append([][2]int{}, in.Ops[:i]...), in.Ops[i+1:]...)
@@ -565,6 +716,20 @@ func init() {
 			}
 			return out
 		},
+	})
+	Register(Spec[c18Conc]{
+		ID: "C18", Suite: "conc", CoqImports: []string{"Check.C18"},
+		CoqType: "Z * list (Z * Z)", CoqRun: "Check.C18.run_set",
+		Quick: 60, Thorough: 3000, Parallel: 2,
+		Gen: func(r *Rand, i int) c18Conc {
+			in := c18Conc{Client: r.Bool(), G: r.Range(2, 8), K: r.Range(1, 12)}
+			n := r.Intn(30)
+			for k := 0; k < n; k++ {
+				in.Pre = append(in.Pre, [2]int{r.Intn(2), r.Intn(60)})
+			}
+			return in
+		},
+		Run: c18ConcRun, Coq: c18ConcCoq,
 	})
 	Register(Spec[c18Pair]{
 		ID: "C18", Suite: "pair", CoqImports: []string{"Check.C18"},
